@@ -8,6 +8,8 @@ for d in seeded/${1:-}*/; do
   name=$(basename $d)
   [ -f $d/patch.diff ] || continue
   pid=$(python3 -c "import json;print(json.load(open('$d/meta.json'))['property'])")
+  obs=$(python3 -c "import json;print(json.load(open('$d/meta.json')).get('obsolete',''))")
+  if [ -n "$obs" ]; then echo "$name ($pid): OBSOLETE — $obs" | cut -c1-200; continue; fi
   git -C /repo worktree add -q $WT HEAD || exit 2
   if ! git -C $WT apply $PWD/$d/patch.diff 2>/dev/null; then
     echo "$name ($pid): PATCH DOES NOT APPLY to current HEAD"
